@@ -44,7 +44,7 @@ class Handshake(Contract):
     raises = {"builtins.Exception": "x_any"}
     raises_any_subclass = ("builtins.Exception",)
     trusted = ("validateHandshake, annotations() are user code; serializer loads/dumps are uninterpreted and may raise",
-               "DaemonObject.get_metadata returns only for a registered object id (model DaemonObjectModel; its real body is under contract in C16/C02)")
+               "DaemonObject.get_metadata returns only for a registered object id (model DaemonObjectModel; its real body is under contract in the registry group: contracts/registry.py GetMetadata)")
 
     def setup(self, E, st):
         d = new_daemon(E, st)
